@@ -242,6 +242,6 @@ def main(argv) -> int:
                 chk.merge(job.result())
             except Exception as err:
                 chk.harness_error(f"worker failed: {err!r}")
-    chk.require_min("models_accepted", chk.pick(60, 1500))
-    chk.require_min("runs", chk.pick(500, 12000))
+    chk.require_min("models_accepted", chk.pick(60, 200))
+    chk.require_min("runs", chk.pick(500, 1800))
     return chk.finish()
